@@ -28,6 +28,9 @@ type Property struct {
 	// (32-bit int/uint/uintptr), when check.sh provides one: the build
 	// configuration is one more axis of the enumerated space.
 	Word32 bool
+	// DebugTag: likewise once more as a binary built with -tags debug (the library's
+	// openacid/must contracts compiled in), when check.sh provides one.
+	DebugTag bool
 	// Assumptions trusted by the check.
 	Assumptions []string
 }
